@@ -299,6 +299,30 @@ fn json_ascii(doc: &Value) -> String {
     out
 }
 
+/// Optional keys that are left out may as well be written with an explicit null (`key: ~`, `"key": null`):
+/// `append` of file and rolling_file appenders, `target` of console appenders, `encoder` of all three.
+fn with_explicit_nulls(doc: &Value) -> Value {
+    let mut d = doc.clone();
+    if let Some(apps) = d.get_mut("appenders").and_then(|a| a.as_object_mut()) {
+        for (_, a) in apps.iter_mut() {
+            let kind = a.get("kind").and_then(|k| k.as_str()).unwrap_or("").to_owned();
+            if let Some(m) = a.as_object_mut() {
+                let keys: &[&str] = match kind.as_str() {
+                    "console" => &["target", "encoder"],
+                    "file" | "rolling_file" => &["append", "encoder"],
+                    _ => &[],
+                };
+                for k in keys {
+                    if !m.contains_key(*k) {
+                        m.insert((*k).to_owned(), Value::Null);
+                    }
+                }
+            }
+        }
+    }
+    d
+}
+
 fn serialize(doc: &Value, fmt: &str) -> Result<String, String> {
     match fmt {
         "json" => Ok(serde_json::to_string_pretty(doc).unwrap()),
@@ -711,7 +735,12 @@ fn check_equivalence(rep: &mut Report, rng: &mut Rng, idx: u64) {
                 }
             }
         } else {
-            let doc = document(&l, dir.to_str().unwrap());
+            let mut doc = document(&l, dir.to_str().unwrap());
+            if idx % 2 == 1 && !fmt.starts_with("toml") {
+                // (TOML has no null)
+                doc = with_explicit_nulls(&doc);
+                rep.count("documents_with_explicit_nulls_for_omitted_optional_keys", 1);
+            }
             let text = match serialize(&doc, fmt) {
                 Ok(t) => t,
                 Err(e) => {
